@@ -187,6 +187,44 @@ struct Failure {
     engine: String,
 }
 
+/// Greedy minimisation of a failing tape that did not come out of proptest's shrinker (corpus
+/// entries, libFuzzer artifacts): zero bytes, then halve them, while the same signature fails.
+fn minimise(ctx: &Ctx, p: &PropDef, tape: &[u8], sig: &str) -> Vec<u8> {
+    let same = |t: &[u8]| matches!(eval_case(ctx, p, t, false), CaseOutcome::Fail { v, .. } if v.sig == sig);
+    let mut best = tape.to_vec();
+    let mut changed = true;
+    let mut rounds = 0;
+    while changed && rounds < 8 {
+        changed = false;
+        rounds += 1;
+        for i in (0..best.len()).rev() {
+            if best[i] == 0 {
+                continue;
+            }
+            let mut cand = best.clone();
+            cand[i] = 0;
+            if same(&cand) {
+                best = cand;
+                changed = true;
+                continue;
+            }
+            let mut v = best[i];
+            while v > 1 {
+                v /= 2;
+                let mut cand = best.clone();
+                cand[i] = v;
+                if same(&cand) {
+                    best = cand;
+                    changed = true;
+                } else {
+                    break;
+                }
+            }
+        }
+    }
+    best
+}
+
 fn eval_into(ctx: &Ctx, p: &PropDef, tape: &[u8], stats: &mut Stats, engine: &str) -> Result<Option<Failure>, String> {
     let want = stats.samples.len() < 3;
     match eval_case(ctx, p, tape, want) {
@@ -195,17 +233,22 @@ fn eval_into(ctx: &Ctx, p: &PropDef, tape: &[u8], stats: &mut Stats, engine: &st
             Ok(None)
         }
         CaseOutcome::Fail { v, .. } => {
-            // re-run for the description
-            let desc = match eval_case(ctx, p, tape, true) {
-                CaseOutcome::Fail { report, .. } => report.desc,
-                _ => String::new(),
-            };
-            Ok(Some(Failure {
-                tape: tape.to_vec(),
-                v,
-                desc,
-                engine: engine.into(),
-            }))
+            // minimise, then re-run for the description
+            let small = minimise(ctx, p, tape, &v.sig);
+            match eval_case(ctx, p, &small, true) {
+                CaseOutcome::Fail { v, report } => Ok(Some(Failure {
+                    tape: small,
+                    v,
+                    desc: report.desc,
+                    engine: engine.into(),
+                })),
+                _ => Ok(Some(Failure {
+                    tape: tape.to_vec(),
+                    v,
+                    desc: String::new(),
+                    engine: engine.into(),
+                })),
+            }
         }
         CaseOutcome::Internal(m) => Err(m),
     }
